@@ -179,6 +179,7 @@ func lcProgram(b lcBehaviour, backend string, style func(k int) int) string {
 					k++
 					st := lcStmt(c.Beh)
 					cond := fmt.Sprintf("req.http.X-Req == \"%d\" && req.restarts == %d", n+1, c.At)
+					scoped := c.Beh == "expire" || c.Beh == "ttl0" || c.Beh == "uncacheable"
 					switch style(k) {
 					case 1: // nested blocks
 						arm("  if (req.http.X-Req == \"%d\") { if (req.restarts == %d) { { %s } } else { log \"other\"; } }\n", n+1, c.At, st)
@@ -188,6 +189,15 @@ func lcProgram(b lcBehaviour, backend string, style func(k int) int) string {
 						} else {
 							fmt.Fprintf(&helpers, "sub helper_%d { %s }\n", k, st)
 							arm("  if (%s) { call helper_%d; }\n", cond, k)
+						}
+					case 3: // inside a switch case
+						arm("  switch (req.http.X-Req) {\n    case \"%d\":\n      if (req.restarts == %d) { %s }\n      break;\n    default:\n      break;\n  }\n", n+1, c.At, st)
+					case 4: // through two levels of called subroutines
+						if scoped {
+							arm("  if (%s) { %s }\n", cond, st)
+						} else {
+							fmt.Fprintf(&helpers, "sub inner_%d { %s }\nsub outer_%d { if (req.http.X-Req) { call inner_%d; } log \"not reached when inner returned an action\"; }\n", k, st, k, k)
+							arm("  if (%s) { call outer_%d; }\n", cond, k)
 						}
 					default:
 						arm("  if (%s) { %s }\n", cond, st)
@@ -347,7 +357,7 @@ func c06Replay(args []string) int {
 			if *plain {
 				return 0
 			}
-			return int((seed*31 + int64(n)*17 + int64(k)*7) % 3)
+			return int((seed*31 + int64(n)*17 + int64(k)*7) % 5)
 		})
 		ip := interpreter.New(context.WithResolver(resolver.NewStaticResolver("main", vcl)))
 		ip.Debugger = silentDebugger{}
